@@ -4,7 +4,7 @@ from .common import generic_run, FinalDbMonitor, launched_instances
 PID = 'C07'
 ENGINE = 'E1'
 LEVEL = 'exploration'
-RULE = ('One case = generated workflow with several recurrences of different steps/offsets, triggers with negative and positive offsets landing off-sequence, before the initial and after the final point, half of them with a stop point option, a third with a (never firing) suicide trigger written in a section other than its target's. Every pool addition and every launch is checked against the model point sets. Distinct = distinct (program, schedule digest); non-trivial = some instance was pooled on demand.')
+RULE = ('One case = generated workflow with several recurrences of different steps/offsets, triggers with negative and positive offsets landing off-sequence, before the initial and after the final point, half of them with a stop point option, a third with a (never firing) suicide trigger written in a section other than that of its target. Every pool addition and every launch is checked against the model point sets. Distinct = distinct (program, schedule digest); non-trivial = some instance was pooled on demand.')
 ASSUMPTIONS = [
     'jobs, polls, submissions, message transport and the clock are simulated',
     'reference model / invariants cover the generated workflow sub-language',
